@@ -273,6 +273,20 @@ func rangeProgram(k rkind, form, body, mutation string, wrapExpr bool, n int) *e
 		line("}")
 		line("YIELD(sum)")
 		line("YIELD(-1)")
+	case "native-loop-var-update":
+		// non-yielding body that assigns to the iteration variable: must not affect the iteration
+		line("n, sum := 0, 0")
+		line("%s", head)
+		ind++
+		line("sum += tr.V(2, %s)", ve)
+		if key != "" && k.keyInt && !strings.HasPrefix(k.name, "chan") {
+			line("%s++", key)
+			line("%s *= 2", key)
+		}
+		mut()
+		ind--
+		line("}")
+		line("YIELD(sum)")
 	case "nested":
 		line("n := 0")
 		line("%s", head)
@@ -343,7 +357,7 @@ func rangeProgram(k rkind, form, body, mutation string, wrapExpr bool, n int) *e
 
 // Range returns the systematic range stream; sample < 1 keeps a PRNG subset.
 func Range(seed int64, keep int, quarantine map[string]bool) (progs []*e1.Program, total int) {
-	allBodies := []string{"yield", "native", "closure", "break-continue", "native-break-continue", "nested", "yield-after-loop-var-update", "capture"}
+	allBodies := []string{"yield", "native", "closure", "break-continue", "native-break-continue", "nested", "yield-after-loop-var-update", "native-loop-var-update", "capture"}
 	var all []*e1.Program
 	n := 0
 	for _, k := range rangeKinds() {
